@@ -15,8 +15,17 @@ position counted from scan-out, `markers pre` / `markers post` the number of "!"
   tables generated from the real `logic.interpret`, `logic.mv_transition`, `logic.mv_xor` on every run;
 * `legacy_interface_agrees`, `first_flag_agrees`: when the two as-found variants (`Mode.legacy`) coincide with the property mode;
   `legacy_inversion_differs`, `legacy_interface_differs`: concrete inputs where they do not (findings D12, D11).
+* text level (section `text`, model `KV.StilText` in Model/StilText.lean = the grammar of `stil.py` read as lark reads it:
+  contextual scanner with the per-state terminal order of the real `Lark` object incl. the merged states after a quoted name
+  and after a skipped `{ .. }` region, `/[^;]+/` values, nested skipped regions; then `StilFile.ok` = what the transformer and
+  `StilFile.__init__` raise on): `stil_text_roundtrip` — `parseStil (printStil f) = some f` for every valid syntax tree;
+  `stil_text_roundtrip_tree` (grammar alone).  `StilFile.toFile` (`dict(..)` semantics, `.SI` / path stripping of cell names) is the
+  hand-over to `KV.Stil.File`.
 **Correspondence (sampled, harness/c18.py):** model in property mode = real `StilFile.tests/tests_loc/responses` on generated
-circuit x STIL-text pairs, the model being fed with the real parse result; the lark grammar is exercised, not modelled.
+circuit x STIL-text pairs, the model being fed with the real parse result.  Text level: the model reader (driver `stilparse`)
+against the real lark grammar — parse tree with ALL tokens kept — the real `stil.parse` (accept / raise) and its three
+dictionaries `signal_groups` / `scan_chains` / `calls` (= `toFile`) on generated, hand-written and mutated texts.  Still trusted:
+that lark implements the grammar as the hand-written reader does — checked by this correspondence, not proved.
 **Oracle:** real results vs the generator's ground truth (which flip-flop / port must hold which value).
 The 8-valued simulation inside `tests_loc` is a parameter (`nxt`) of the model; C02 is about that simulation. -/
 namespace KV.C18
